@@ -342,7 +342,7 @@ package ion
 //@ ensures[C06,C13] err == nil ==> vcIsInt64(result) || (vcIsBigInt(result) && vcAsBigInt(result) != nil)
 //@ ensures[C03,C07] old(b.code) == bitcodeNegInt && old(b.len) <= 8 && uint64(old(bsAvail(b))) >= old(b.len) &&
 //@    specBEValue(bsS(b).data, old(bsS(b).cur), old(b.len)) == 0 ==> err != nil
-//@ ensures[C03] uint64(old(bsAvail(b))) >= old(b.len) && old(b.len) <= 8 &&
+//@ ensures[C03] uint64(old(bsAvail(b))) >= old(b.len) && (old(b.len) < 8 || (old(b.len) == 8 && old(bsByte(b, 0))&0x80 == 0)) &&
 //@    (old(b.code) == bitcodeInt || specBEValue(bsS(b).data, old(bsS(b).cur), old(b.len)) != 0) ==> err == nil
 //@ safe[C06]
 
